@@ -1,14 +1,17 @@
+#![allow(unused_imports, dead_code)]
 //! C15 (coefficient arithmetic on complete domains) and C16 (zeroize on drop).
 
 use crate::report::{Report, Tier, Violation};
 use crate::subject::{guard, APIS};
 use crate::Ctx;
+#[cfg(feature = "kernels")]
 use fips204::verif_hooks as hk;
 use rayon::prelude::*;
 use refmodel::{mod_pm, mod_q, Q};
 use serde_json::json;
 
 pub use crate::checks_d::{c12, c13};
+#[cfg(feature = "kernels")]
 pub use crate::checks_e::c18;
 
 const G2: [i64; 2] = [(Q - 1) / 88, (Q - 1) / 32];
@@ -18,6 +21,7 @@ const R32: i64 = 2_143_289_344;
 /// Complete enumeration of the integer interval [lo, hi] (inclusive) in parallel chunks. `f` returns a
 /// description of the failure for a failing input. A panic inside a chunk (a library self-check firing)
 /// is localised by re-running the chunk input by input.
+#[cfg(feature = "kernels")]
 fn sweep(rep: &mut Report, name: &str, lo: i64, hi: i64, exhaustive_for: &str, f: &(dyn Fn(i64) -> Option<String> + Sync)) {
     let chunk: i64 = 1 << 20;
     let nchunks = (hi - lo) / chunk + 1;
@@ -62,6 +66,7 @@ fn sweep(rep: &mut Report, name: &str, lo: i64, hi: i64, exhaustive_for: &str, f
     }
 }
 
+#[cfg(feature = "kernels")]
 pub fn c15(cx: &Ctx, rep: &mut Report) {
     rep.rule = "complete domains through the verif_hooks wrappers against big-integer definitions: Power2Round / Decompose / HighBits / LowBits / UseHint on every r in Z_q (and the reducing prologue on the documented i32 range) x both gamma2 x h in {0,1}; MakeHint on every r x a z alphabet in both representations its caller supplies; mod+- , partial_reduce32, full_reduce32 on their documented input range; CoeffFromThreeBytes on all 2^24 inputs (x CTEST); CoeffFromHalfByte on 16 x eta x CTEST; partial_reduce64 on every x*2^32 with |x| below its bound; Montgomery reduction on all 2^32 low words x boundary high words; the zeta table. Each input of a complete domain is a distinct case.".into();
     let t = cx.tier;
